@@ -205,4 +205,7 @@ class SegwitChecker(SolutionChecker):
                     "this version witness program not yet supported",
                     errno.DISCOURAGE_UPGRADABLE_WITNESS_PROGRAM,
                 )
+            else:
+                # witness versions without defined semantics succeed and leave a single true item
+                return self.ScriptTools.compile("OP_1"), [], flags, None  # type: ignore[attr-defined]
         return None
